@@ -184,10 +184,10 @@ def run(ctx):
     srcs = docs.repo_sources()
     if ctx.quick():
         d2 = docs.hash_slice(docs.dn(2, docs.CORE_PREFIX, docs.CORE_BODY), 3000)
-        pool = docs.sample(ctx.rng, res, 300) + docs.sample(ctx.rng, srcs, 800) + docs.sample(ctx.rng, list(docs.d1()), 300) + docs.sample(ctx.rng, d2, 200) + docs.sample(ctx.rng, docs.families() + docs.link_edges(), 300)
+        pool = docs.sample(ctx.rng, res, 300) + docs.sample(ctx.rng, srcs, 800) + docs.sample(ctx.rng, list(docs.d1()), 300) + docs.sample(ctx.rng, d2, 200) + docs.sample(ctx.rng, docs.families() + docs.link_edges(), 300) + docs.sample(ctx.rng, docs.container_pairs() + docs.corpus_marker_variants(), 500)
         singles = docs.sample(ctx.rng, ids, 12)
     else:
-        pool = res + srcs + docs.families() + docs.link_edges() + list(docs.d1()) + docs.hash_slice(docs.dn(2, docs.CORE_PREFIX, docs.CORE_BODY), 3000)
+        pool = res + srcs + docs.families() + docs.link_edges() + docs.container_pairs() + docs.corpus_marker_variants() + list(docs.d1()) + docs.hash_slice(docs.dn(2, docs.CORE_PREFIX, docs.CORE_BODY), 3000)
         singles = ids
     pool = list(dict.fromkeys(pool))
     configs = [("default", []), ("all-enabled", ["-e", ",".join(ids)])]
@@ -196,14 +196,19 @@ def run(ctx):
     absorbed = {}
     if os.environ.get("VERIF_DUMP"):
         json.dump([(c, t, s_, d) for (c, a, t, s_, d) in fails], open(os.environ["VERIF_DUMP"], "w"), indent=0)
+    base = vlib.InputBaseline("C07")
     for (cname, args, t, sym, det) in fails:
         f = footprint(ctx, t, sym, det or "")
-        if f:
+        # a failure is absorbed only if its family is described (call-site signature / footprint) AND this exact input is listed
+        sig = sym + ":" + ((f.get("signature") or f["id"]) if f else "unknown")
+        vlib.collect_failure("C07", cname, t, sig)
+        if f and base.absorbs(cname, t, sig):
             absorbed[f["id"]] = absorbed.get(f["id"], 0) + 1
             ctx.known_finding(f)
             continue
-        ctx.report({"doc": t, "config": cname}, sym, {"argv_extra": args, "detail": det,
-                   "oracle": "C07 statement on the real scan output (no plugin error; line/column in range; unique; ordered; two runs equal)"})
+        ctx.report({"doc": t, "config": cname}, sym, {"argv_extra": args, "detail": det, "family": f["id"] if f else None,
+                   "oracle": "C07 statement on the real scan output (no plugin error; line/column in range; unique; ordered; two runs equal); "
+                             "a failure at a known call site on an input that is not listed in findings/C07.inputs.json is a violation"})
     if ctx.broken and not ctx.violations:
         ctx.violation({"oracle": "Verif.Props.C07 / engine correspondence broken; document sweep found no property failure"}, no_input=True)
     ctx.assumptions += ["documents that do not tokenize are C01's subject and skipped here",
